@@ -5,7 +5,7 @@
    one outcome per event out; every nil-able Go field is an option and every dereference is checked,
    a failed check makes the step return None (= the Go code would panic). *)
 From GVL Require Import NList.
-From GV_serverhostile Require Import Model Basics Inv FindFree Handlers Step Proofs.
+From GV_serverhostile Require Import Model Basics Inv FindFree Handlers Step Frame Proofs.
 Open Scope N_scope.
 
 (* hostile_no_panic: for every configuration whose served stream has at least one media, NO list of
@@ -68,6 +68,23 @@ Print Assumptions C11_serverhostile_supported_transport_needs.
 Theorem C11_serverhostile_find_free_terminates : forall ms, find_free ms <> None.
 Proof. exact find_free_some. Qed.
 Print Assumptions C11_serverhostile_find_free_terminates.
+
+(* others_unaffected, partial: a step on connection cid leaves untouched every session that the
+   connection is not paired with and that the request does not name (session ids are unguessable
+   secrets): the session record (state, transport, medias, attached connections, TCP connection,
+   writer, timer) is identical and its reader / active-reader slots in the stream are unchanged.
+   Missing for the full statement: the session's UDP registrations, which CAN be taken over by a
+   session of the same IP that uses the same client ports (refuted below), and the survival of the
+   session's own control connections (needs the attachment invariant; observed by the harness). *)
+Theorem C11_serverhostile_others_unaffected_partial : forall g s cid e s' o x ssx,
+  Inv s -> step g s (SConn cid e) = Some (s', o) ->
+  find_sess x (v_sess s) = Some ssx ->
+  (forall c, find_conn cid (v_conns s) = Some c -> c_sess c <> Some x) ->
+  (forall r, e = EReq r -> r_sess r <> Some x) ->
+  find_sess x (v_sess s') = Some ssx /\
+  (In x (v_readers s') <-> In x (v_readers s)) /\ (In x (v_active s') <-> In x (v_active s)).
+Proof. exact others_unaffected_partial. Qed.
+Print Assumptions C11_serverhostile_others_unaffected_partial.
 
 (* resources_released, partial: when a session ends it leaves Server.sessions, every connection attached
    to it is closed, and (if it had joined the stream) its reader slot and its active-reader slot are
